@@ -159,6 +159,10 @@ def run(ck):
                 if not s.I.read(w, s.args[0][1])[1][c.i_cur] == ('int', Lin.c(0)):
                     ck.finding('C15.R5', ENC + m, 'counter-kept', f"{m} does not reset re_current_consecutive")
         ck.rule(f'C15.R5 {m} returns', n, floor)
+    # R6: the public callers of check_label_re_use do not disturb the policy state
+    from rules import c04
+    ne, no = c04.sender_wrapper_rules(ck, f, c, 'C15.R6', 'C15.R6')
+    ck.rule('C15.R6 Err / Ok returns of encap and encap_ext (policy state only moves through check_label_re_use)', ne + no, 14)
     # WHO: writers of the four policy fields
     writers = who_writes(f, ENCAPS, ['re_use_activated', 're_max_consecutive', 're_current_consecutive', 'last_label'])
     allowed = {'re_use_activated': {'new', 'disable_re_use_label', 'enable_re_use_label', 'enable_re_use_label_with_max_consecutive'},
